@@ -94,6 +94,39 @@ pub fn run_c02(out: &mut Out, seed: u64, thorough: bool) {
         out.distinct_case(&ser);
         out.count(if r.starts_with("ok") { "compiled" } else { "panicked" });
     }
+    // directed: a name defined more than once (label repeated, also in another letter case; .EQU given a new value; a label
+    // and an .EQU of the same name) with absolute, relative and data references before, BETWEEN and after the definitions:
+    // every reference takes the LAST definition
+    let refs = ["LD R0, {n}", "LD R1, ({n})", "ST ({n}), R2", "JMP {n}", "CALL {n}", "JR {n}", "JZS {n}", "CMP R0, {n}", "BITS ({n}), 1", "LDSP {n}", "DEC ({n})"];
+    let defs: [(&str, &str); 5] = [("{n}:", "{n}:"), ("{n}:", "{N}:"), (".EQU {n} 7", ".EQU {n} 9"), ("{n}:", ".EQU {n} 200"), (".EQU {N} 3", "{n}:")];
+    for (d1, d2) in defs.iter() {
+        for (ri, r) in refs.iter().enumerate() {
+            for pos in 0..3 {
+                let name = format!("nm{}", ri);
+                let sub = |t: &str| t.replace("{n}", &name).replace("{N}", &name.to_uppercase());
+                let mut lines: Vec<String> = vec!["#! mrasm".into(), " NOP".into()];
+                if pos == 0 { lines.push(format!(" {}", sub(r))); }
+                lines.push(sub(d1));
+                lines.push(" INC R0".into());
+                if pos == 1 { lines.push(format!(" {}", sub(r))); }
+                lines.push(" INC R1".into());
+                lines.push(sub(d2));
+                lines.push(" NOP".into());
+                if pos == 2 { lines.push(format!(" {}", sub(r))); }
+                lines.push(" STOP".into());
+                let text = lines.join("\n") + "\n";
+                if let Ok(parsed) = AsmParser::parse(&text) {
+                    let ser = astser::asm(&parsed);
+                    let res = compile_str(&parsed);
+                    out.emit(&format!("compile {} {}", hexs(&text), ser), &res);
+                    out.emit(&format!("spec.encode {} {}", hexs(&text), ser), &res);
+                    out.count("redefined-name");
+                } else {
+                    out.count("redefined-name-rejected");
+                }
+            }
+        }
+    }
 }
 
 pub fn run_c06(out: &mut Out, seed: u64, thorough: bool) {
